@@ -110,3 +110,14 @@ Proof.
   intros HT Hi Hj H. unfold unflat in H. inversion H.
   rewrite (Nat.div_mod i T), (Nat.div_mod j T) by lia. congruence.
 Qed.
+
+(* every field of a sample is gathered through the same flatten + index: the sample at flat index
+   e*T + t takes the (step t, env e) cell of EVERY field *)
+Theorem fields_aligned {X} (d : X) n T (fields : list (list (list X))) e t :
+  Forall (fun rows => length rows = T) fields -> t < T -> e < n ->
+  map (fun rows => nth (e * T + t) (flatten d n rows) d) fields =
+  map (fun rows => nth e (nth t rows []) d) fields.
+Proof.
+  intros HF Ht He. apply map_ext_in. intros rows Hin.
+  rewrite Forall_forall in HF. specialize (HF _ Hin). subst T. apply flatten_index; assumption.
+Qed.
